@@ -472,6 +472,16 @@ func (s *Session) Readline(sh *readline.Shell) (string, error) {
 	return line, err
 }
 
+// ResizeIdle changes the terminal size while no Readline call is active (for a session body, between two
+// calls): nothing of the library is listening for the signal then, the next call has to ask the terminal again.
+func (s *Session) ResizeIdle(w, h int) {
+	s.drain()
+	s.P.setSize(w, h)
+	s.Term.Resize(w, h)
+	s.Out.Extra["resized_idle"] = true
+	s.event("RESIZE-IDLE %dx%d", w, h)
+}
+
 func (s *Session) startTask(kind string, body func()) *Task {
 	t := &Task{Kind: kind, parkedAt: map[string]int{}}
 	switch kind {
